@@ -30,7 +30,7 @@ META = {
                     "(shortest-repr property for <= 15 significant digits; validated concretely in obligation decimal-shim-validation)",
                     "json.dumps/loads replaced by the JSON model when symbolic numbers flow through it"],
     "outside": ["doubles that are not short decimals as arguments of stepped floats", "the C json encoder (concrete validation only)",
-                "the continuous search-space transform round trip (numeric kernels are covered under C10)"],
+                "the transform round trip for log-scaled parameters (uninterpreted exp/log; the clamp is covered under C10)"],
 }
 
 B53 = 2 ** 53
@@ -236,6 +236,7 @@ def decimal_shim_validation():
     t0 = time.time()
     n = 0
     bad = []
+    wrong = []
     real_od_float = float
     for digits in (0, 1, 2, 3, 6):
         for num in list(range(-25, 26)) + [10 ** 6 * 10 ** digits - 1, -(10 ** 6) * 10 ** digits + 1, 123456789, 999999999999]:
@@ -250,13 +251,20 @@ def decimal_shim_validation():
         k = (decimal.Decimal(str(hi)) - decimal.Decimal(str(lo))) // decimal.Decimal(st)
         want = float(k * decimal.Decimal(st) + decimal.Decimal(str(lo))) if (decimal.Decimal(str(hi)) - decimal.Decimal(str(lo))) % decimal.Decimal(st) != 0 else hi
         n += 1
+        d2 = json_to_distribution(distribution_to_json(d))
         if d.high != want:
-            bad.append(("adjusted high", lo, hi, st, d.high, want))
-    res = {"result": "ok" if not bad else "mismatch", "programs": n, "queries": 0, "wall_s": time.time() - t0,
-           "samples": [{"checked": "str(float(n/10^d)) == numeral; real constructor vs exact decimal arithmetic", "cases": n}]}
+            wrong.append(("adjusted high is not the exact decimal grid point", lo, hi, st, d.high, want))
+        elif d2 != d or json_to_distribution(distribution_to_json(d2)) != d2:
+            wrong.append(("JSON round trip changes the distribution", lo, hi, st, repr(d), repr(d2)))
+    res = {"result": "ok" if not (bad or wrong) else "mismatch", "programs": n, "queries": 0, "wall_s": time.time() - t0,
+           "samples": [{"checked": "str(float(n/10^d)) == numeral; real constructor vs exact decimal arithmetic; real JSON round trip", "cases": n}]}
     if bad:
         res["failed"] = True
         res["inconclusive"] = f"short-decimal assumption violated: {bad[:3]}"
+    if wrong:
+        # concrete executions of the real constructor / real json: already replayed
+        res["cex"] = [{"key": "stepped-float:" + w[0], "pre_replayed": True, "values": {}, "choices": [], "notes": {"case": [str(x) for x in w]}, "kind": "concrete",
+                       "message": f"FloatDistribution(low={w[1]}, high={w[2]}, step={w[3]}): {w[0]}: got {w[4]}, expected {w[5]}"} for w in wrong[:5]]
     return res
 
 
@@ -329,6 +337,10 @@ def obligations(tier):
                               budget_s=300, classify=classify, require_reach=["checked"], describe=f"stepped FloatDistribution, step={st}"))
     obs.append(Obligation("decimal-shim-validation", None, None, [], custom=decimal_shim_validation,
                           describe="short-decimal assumption + real constructor vs exact decimal arithmetic on concrete numerals"))
+    from harness import c10
+    obs.append(Obligation("transform-roundtrip", c10.transform_roundtrip_body, c10.setup_transform01, CODE + [c10.tr._SearchSpaceTransform.transform, c10.tr._SearchSpaceTransform.untransform],
+                          bounds=dict(kinds=6, transform_0_1=[True, False]), budget_s=600, classify=classify, require_reach=["roundtrip"],
+                          describe="untransform(transform(cfg)) == cfg for configurations on the grid, incl. narrow ranges at large magnitude (shared with C10)"))
     for n in [1, 2, 3]:
         obs.append(Obligation(f"categorical-{n}", make_categorical_body(n), setup_float, CODE, bounds=dict(choices=n, kinds=CHOICE_KINDS), shard_depth=3,
                               budget_s=900, classify=classify, require_reach=["checked"], describe=f"CategoricalDistribution with {n} choices from the type lattice"))
